@@ -78,4 +78,38 @@ def recguardOp : Tok → String
      | _, _, _, _, _ => "bad-op")
   | _ => "bad-op"
 
+def pPlmn (s : String) : Option (Option (Bytes × Bytes)) :=
+  if s = "~" then some none
+  else match s.splitOn "/" with
+    | [a, b] => (match bytesOfHex a, bytesOfHex b with
+      | some a, some b => some (some (a, b))
+      | _, _ => none)
+    | _ => none
+
+def pPdu (s : String) : Option (Option (Option Pdu)) :=
+  if s = "~" then some none
+  else if s = "x0" ∨ s = "x1" ∨ s = "x2" then some (some none)
+  else match s.splitOn "/" with
+    | [a, b, c, d, e] => (match a.toInt?, b.toInt?, c.toInt?, bytesOfHex d, bytesOfHex e with
+      | some a, some b, some c, some d, some e => some (some (some ⟨a, b, c, d, e⟩))
+      | _, _, _, _, _ => none)
+    | _ => none
+
+/-- `recopen <nfId> <openTime> <functionality> <v4> <v6> <fqdn> <mcc/mnc|~> <svcSpec> <reg> <pdu> [<record>]`:
+    does OpenCDR accept the request, and the octets of the record it opens (identity fields as observed) -/
+def recopenOp : Tok → String
+  | nfid :: ot :: fn :: v4 :: v6 :: fq :: pl :: sv :: rg :: pd :: rest =>
+    (match bytesOfHex nfid, bytesOfHex ot, bytesOfHex fn, bytesOfHex v4, bytesOfHex v6, bytesOfHex fq, pPlmn pl, bytesOfHex sv, pPdu pd with
+     | some nfid, some ot, some fn, some v4, some v6, some fq, some pl, some sv, some pd =>
+       let c : Consumer := { functionality := fn, v4 := v4, v6 := v6, fqdn := fq, plmn := pl, svcSpec := sv,
+                             registration := rg = "1", pdu := pd }
+       if ¬ openAccepts c then "st=400"
+       else match rest with
+         | [rec] => (match pRecord rec with
+           | some r => "st=201 " ++ sRecRes (recordBytes (openEnv nfid ot c) r)
+           | none => "bad-op")
+         | _ => "st=201"
+     | _, _, _, _, _, _, _, _, _ => "bad-op")
+  | _ => "bad-op"
+
 end Chf.Driver
